@@ -1,8 +1,7 @@
 /-
 C08, second half — "enforcing an accepted result again never yields a different string", for the
-OpaqueString and username profiles.  The only assumption about the external normalizer is that NFC is
-idempotent (`NfcIdempotent`, a UAX #15 guarantee; exercised by the correspondence run, not proved for
-the model).  Everything else is proved: the accepted result contains no character that the additional
+OpaqueString and username profiles.  Nothing is assumed about the normalizer any more: idempotence of NFC is proved for
+the normalizer model over the tables dumped from the crate (Lemmas/NfcIdem.lean).  The accepted result contains no character that the additional
 mapping / width mapping / case mapping of a second enforcement would change, because the corresponding
 sets are closed under canonical decomposition and composition (kernel-checked facts in
 Facts/Closure2.lean + the generic closure lemma `nfc_closed`).
@@ -10,11 +9,17 @@ Facts/Closure2.lean + the generic closure lemma `nfc_closed`).
 import Precis.Props.C08
 import Precis.Props.C01
 import Precis.Facts.Closure2
+import Precis.Lemmas.NfcIdem
 namespace Precis.C08
 open Precis Precis.Spec Precis.Facts Precis.Gen.Forb Precis.Gen.Norm Precis.Gen.Std Precis.Gen.Prof
 
-/-- assumption about the external normalizer -/
-def NfcIdempotent : Prop := ∀ t : List Nat, nfc (nfc t) = nfc t
+/-- NFC of the normalizer model is idempotent on strings of Unicode code points: PROVED (Lemmas/NfcIdem.lean, generic
+induction over the crate's recomposition state machine + kernel-checked facts about the dumped tables), no longer an
+assumption -/
+theorem nfc_idempotent (t : List Nat) (ht : ∀ c ∈ t, c < 0x110000) : nfc (nfc t) = nfc t := NfcIdem.nfc_idem t ht
+
+/-- likewise NFKC -/
+theorem nfkc_idempotent (t : List Nat) (ht : ∀ c ∈ t, c < 0x110000) : nfkc (nfkc t) = nfkc t := NfcIdem.nfkc_idem t ht
 
 /-! ### generic: the complement of a bitmap of excluded code points -/
 
@@ -197,7 +202,7 @@ theorem testBit_lor_false_iff {a b c : Nat} :
 /-! ### OpaqueString -/
 
 /-- OpaqueString: re-enforcing an accepted result returns it unchanged or an error -/
-theorem op_no_drift (hid : NfcIdempotent) (s e : List Nat) (h : Opaque.enforce s = .ok e)
+theorem op_no_drift (s e : List Nat) (h : Opaque.enforce s = .ok e)
     (hf : e.length < 2 ^ 63) : Opaque.enforce e = .ok e ∨ ∃ x, Opaque.enforce e = .err x := by
   -- what the first run tells about `e`
   have hfix : nfc (Spec.specOpaqueMap e) = e := by
@@ -240,7 +245,7 @@ theorem op_no_drift (hid : NfcIdempotent) (s e : List Nat) (h : Opaque.enforce s
           unfold bFfZ at this
           exact (testBit_lor_false_iff.mp this).2
         rw [opaqueMap_id _ hz]
-        exact hid _
+        exact NfcIdem.nfc_idem _ (fun c hc => ((inS_iff _ _).mp (hm c hc)).1)
     | err x => simp [hp] at h
     | panic => simp [hp] at h
   have hne := C01.opaque_enforce_total e hf
@@ -290,7 +295,7 @@ theorem user_second (mapped : Bool) (e : List Nat) (hf : e.length < 2 ^ 63)
   | panic => exact absurd h2 hne
 
 /-- UsernameCasePreserved -/
-theorem up_no_drift (hid : NfcIdempotent) (s e : List Nat) (h : Username.enforce false s = .ok e)
+theorem up_no_drift (s e : List Nat) (h : Username.enforce false s = .ok e)
     (hf : e.length < 2 ^ 63) :
     Username.enforce false e = .ok e ∨ ∃ x, Username.enforce false e = .err x := by
   rw [C04.enforce_eq] at h
@@ -316,13 +321,13 @@ theorem up_no_drift (hid : NfcIdempotent) (s e : List Nat) (h : Username.enforce
         have := ((inS_iff _ _).mp (hS c hc)).2
         unfold bIdW at this
         exact (testBit_lor_false_iff.mp this).2
-      apply user_second false e hf (width_id e hk) (by simp) (by rw [he]; exact hid _) h
+      apply user_second false e hf (width_id e hk) (by simp) (by rw [he]; exact NfcIdem.nfc_idem _ (fun c hc => ((inS_iff _ _).mp (hm c hc)).1)) h
   | err x => simp [hp] at h
   | panic => simp [hp] at h
 
 /-- UsernameCaseMapped, for inputs without a character whose lowercase image is forbidden (the
 Cherokee letters of the known finding; for those the second enforcement is an error, see the sweep) -/
-theorem um_no_drift_partial (hid : NfcIdempotent) (s e : List Nat) (h : Username.enforce true s = .ok e)
+theorem um_no_drift_partial (s e : List Nat) (h : Username.enforce true s = .ok e)
     (hk : ∀ c ∈ Spec.specWidth s, c ∉ lowerBad forbIdL) (hf : e.length < 2 ^ 63) :
     Username.enforce true e = .ok e ∨ ∃ x, Username.enforce true e = .err x := by
   rw [C04.enforce_eq] at h
@@ -383,7 +388,7 @@ theorem um_no_drift_partial (hid : NfcIdempotent) (s e : List Nat) (h : Username
         exact ⟨(testBit_lor_false_iff.mp h1.1).2, h1.2⟩
       apply user_second true e hf (width_id e (fun c hc => (hbits c hc).1))
         (by simp only [if_true]; exact case_id e (fun c hc => (hbits c hc).2))
-        (by rw [he]; exact hid _) h
+        (by rw [he]; exact NfcIdem.nfc_idem _ (fun c hc => ((inS_iff _ _).mp (hm c hc)).1)) h
   | err x => simp [hp] at h
   | panic => simp [hp] at h
 
